@@ -862,9 +862,59 @@ fn config_free_history(fmt: &str, rng: &mut Rng, input: &[u8]) -> Vec<Op> {
     ops
 }
 
+/// see `config_lattice`
+fn tight_input(fmt: &str, rng: &mut Rng, cap: usize) -> Vec<u8> {
+    let mut f: Vec<u8> = vec![];
+    let mut rec = |f: &mut Vec<u8>, total: usize, k: usize| {
+        // one record of `total` bytes in all (terminators included)
+        if fmt == "fa" {
+            let id = format!(">r{}", k);
+            f.extend_from_slice(id.as_bytes());
+            f.push(b'\n');
+            let body = total.saturating_sub(id.len() + 2);
+            f.extend(std::iter::repeat(b'A').take(body));
+            f.push(b'\n');
+        } else {
+            let id = format!("@r{}", k);
+            let body = total.saturating_sub(id.len() + 5);
+            f.extend_from_slice(id.as_bytes());
+            if body % 2 == 1 {
+                f.push(b'x');
+            }
+            f.push(b'\n');
+            f.extend(std::iter::repeat(b'A').take(body / 2));
+            f.extend_from_slice(b"\n+\n");
+            f.extend(std::iter::repeat(b'I').take(body / 2));
+            f.push(b'\n');
+        }
+    };
+    // the short prefix
+    match rng.below(4) {
+        0 => f.extend(std::iter::repeat(b'\n').take(rng.range(1, 4))),
+        1 => rec(&mut f, 6 + rng.below(4), 0),
+        2 => {}
+        _ => {
+            if fmt == "fa" {
+                f.extend_from_slice(b">\n");
+            } else {
+                f.extend_from_slice(b"@\n\n+\n\n");
+            }
+        }
+    }
+    for k in 1..rng.range(2, 5) {
+        let total = if rng.chance(2, 3) { cap - rng.below(6) } else { rng.range(8, cap) };
+        rec(&mut f, total.max(8), k);
+    }
+    f
+}
+
 pub fn config_lattice(fmt: &str, rng: &mut Rng, n_inputs: usize, out: &mut Vec<String>) {
     for _ in 0..n_inputs {
-        let input = rand_input(fmt, rng, 30);
+        // one group in five: a "tight" file for a buffer that may not grow – a few bytes (blank lines or a minimal record)
+        // followed by a record about as long as the buffer: it fits only once it has been moved to the buffer's start
+        let tight_cap = *rng.pick(&[64usize, 96, 128, 256]);
+        let tight = rng.chance(1, 5);
+        let input = if tight { tight_input(fmt, rng, tight_cap) } else { rand_input(fmt, rng, 30) };
         // half of the groups: plain record-by-record reading; the other half: a history whose observations do not
         // legitimately depend on the configuration (no plain set reads – their batch size may depend on the capacity –,
         // positions only asked right after a single read, no policy change)
@@ -904,7 +954,7 @@ pub fn config_lattice(fmt: &str, rng: &mut Rng, n_inputs: usize, out: &mut Vec<S
             (3, PolDesc::Std, 1, vec![]),
             (rng.range(3, 9), PolDesc::Add(1), 2, intr_script),
             third,
-            (64, PolDesc::Std, 0, vec![]),
+            if tight { (tight_cap, PolDesc::Limited(rng.range(1, 300), tight_cap), 0, vec![]) } else { (64, PolDesc::Std, 0, vec![]) },
             fifth,
             (rng.range(3, len + 2), PolDesc::Table((0..3).map(|_| rng.range(1, 7)).collect()), *rng.pick(&[0usize, 3, 7]), vec![]),
         ];
